@@ -313,7 +313,7 @@ async fn one_case(s: &mut Server, acc: &mut Acc, h: &Hdr, shape: &str, req: &Req
     Ok(())
 }
 
-async fn run_server(enabled: bool, names: &[String], acc: &mut Acc, thorough: bool) -> Result<(), Box<dyn std::error::Error>> {
+async fn run_server(enabled: bool, names: &[String], acc: &mut Acc, thorough: bool, rng: &mut crate::rng::Rng) -> Result<(), Box<dyn std::error::Error>> {
     let dir = tempfile::TempDir::new()?;
     let addr = format!("127.0.0.1:{}", rpcx::free_port());
     let cfg = rpcx::config(dir.path().to_str().unwrap(), &addr, if enabled { Some((Some(USER), Some(PASSWORD))) } else { None }, "regtest", true);
@@ -419,6 +419,45 @@ async fn run_server(enabled: bool, names: &[String], acc: &mut Acc, thorough: bo
         }
     }
 
+    // phase F: random batches (length 1..8; calls, notifications, invalid entries; protected and
+    // public methods mixed; any header of the main set), from the seeded generator
+    {
+        let heavy = ["eth_call", "eth_callMany", "eth_estimateGas", "eth_estimateGasMany", "brc20_balance"];
+        let safe_protected = ["brc20_mine", "brc20_commitToDatabase", "brc20_clearCaches", "brc20_finaliseBlock", "debug_getBlockTraceHash", "debug_getBlockTraceString"];
+        let tx_protected = ["brc20_deploy", "brc20_call", "brc20_deposit", "brc20_withdraw", "brc20_transact"];
+        let public: Vec<&String> = names.iter().filter(|m| !vh::INDEXER_METHODS.contains(*m)).collect();
+        let light_public: Vec<&String> = public.iter().copied().filter(|m| !heavy.contains(&m.as_str())).collect();
+        let n = if thorough { 1500 } else { 150 };
+        for _ in 0..n {
+            // batches that may open a block use only reads that do not wait for the block to close
+            let with_tx = rng.chance(1, 3);
+            let len = rng.range(1, 8) as usize;
+            let mut es = Vec::new();
+            let mut tx_idx = 0u64;
+            for i in 0..len {
+                let m: String = if rng.chance(2, 5) {
+                    if with_tx && rng.chance(1, 2) { rng.pick(&tx_protected).to_string() } else { rng.pick(&safe_protected).to_string() }
+                } else if with_tx { (*rng.pick(&light_public)).clone() } else { (*rng.pick(&public)).clone() };
+                let mut p = params_for(&m, &s.ctx);
+                if tx_protected.contains(&m.as_str()) {
+                    // keep tx_idx consecutive so that an authorised batch really executes them
+                    let pos = match m.as_str() { "brc20_deploy" => 5, "brc20_call" => 7, "brc20_transact" => 4, _ => 5 };
+                    if let Some(a) = p.as_array_mut() { a[pos] = json!(tx_idx); }
+                    tx_idx += 1;
+                }
+                es.push(match rng.below(10) {
+                    0..=5 => Ent::Call(i as u64 + 1, m, p),
+                    6..=8 => Ent::Notif(m, p),
+                    _ => Ent::Bad(Some(i as u64 + 1), json!({"id": i as u64 + 1, "nonsense": true})),
+                });
+            }
+            let h = rng.pick(&headers).clone();
+            // the reference check's "public reads answer a result" is kept; protected entries may
+            // answer their own errors when authorised
+            one_case(&mut s, acc, &h, "random_batch", &Req::Batch(es), true).await?;
+        }
+    }
+
     // phase E: the same server also speaks WebSocket; the HTTP layer sees the upgrade request
     s.reset().await?;
     ws_probe(&addr, enabled, &mine_p, acc).await;
@@ -493,8 +532,9 @@ async fn config_cases(acc: &mut Acc) -> Result<Vec<String>, Box<dyn std::error::
     Ok(terms)
 }
 
-pub fn run(out: &Path, _seed: u64, thorough: bool) -> Result<(), Box<dyn std::error::Error>> {
+pub fn run(out: &Path, seed: u64, thorough: bool) -> Result<(), Box<dyn std::error::Error>> {
     rpcx::install_span_recorder();
+    let mut rng = crate::rng::Rng::new(seed);
     let rt = tokio::runtime::Builder::new_multi_thread().worker_threads(4).enable_all().build()?;
     let mut acc = Acc { terms: vec![], jsonl: vec![], failures: vec![], samples: vec![], by_class: BTreeMap::new(), by_header: BTreeMap::new(), by_shape: BTreeMap::new(),
         auth_result: BTreeMap::new(), unauth_401: BTreeMap::new(), handler_runs: 0, state_changes: 0, next_id: 0, ws: vec![], distinct: Default::default() };
@@ -506,8 +546,8 @@ pub fn run(out: &Path, _seed: u64, thorough: bool) -> Result<(), Box<dyn std::er
     };
     let t0 = std::time::Instant::now();
     rt.block_on(async {
-        run_server(true, &names, &mut acc, thorough).await?;
-        run_server(false, &names, &mut acc, thorough).await?;
+        run_server(true, &names, &mut acc, thorough, &mut rng).await?;
+        run_server(false, &names, &mut acc, thorough, &mut rng).await?;
         Ok::<(), Box<dyn std::error::Error>>(())
     })?;
     let cterms = rt.block_on(config_cases(&mut acc))?;
@@ -533,7 +573,7 @@ pub fn run(out: &Path, _seed: u64, thorough: bool) -> Result<(), Box<dyn std::er
         "evaluations": acc.terms.len() + cterms.len(),
         "config_cases": cterms.len(),
         "distinct_nontrivial": acc.distinct.len(),
-        "rule": "exhaustive: every registered method x {call, notification, batch [M,P,P] [P,M,P] [P,P,M] with M a call, same with M a notification} x {no header, wrong user, wrong password, malformed, correct} x {auth enabled, disabled} through the real HTTP server; brc20_initialise additionally on the uninitialised database; header corner cases (scheme case, spacing, non-UTF8, duplicates, other header) and request corner cases (escaped / unknown / case-changed method names, empty batch, notification-only batches, id 0 collision, invalid entries). A case is non-trivial when it is a well-formed HTTP request that reaches the JSON-RPC layer (all are); distinct = distinct (auth mode, body, header lines).",
+        "rule": "exhaustive: every registered method x {call, notification, batch [M,P,P] [P,M,P] [P,P,M] with M a call, same with M a notification} x {no header, wrong user, wrong password, malformed, correct} x {auth enabled, disabled} through the real HTTP server; brc20_initialise additionally on the uninitialised database; header corner cases (scheme case, spacing, non-UTF8, duplicates, other header) and request corner cases (escaped / unknown / case-changed method names, empty batch, notification-only batches, id 0 collision, invalid entries); seeded random batches of length 1..8 mixing calls, notifications, invalid entries, protected and public methods. A case is non-trivial when it is a well-formed HTTP request that reaches the JSON-RPC layer (all are); distinct = distinct (auth mode, body, header lines).",
         "samples": acc.samples,
         "impl_failures": acc.failures,
         "registered_methods": names.len(),
